@@ -387,3 +387,108 @@ func (p *Prog) neverWritten(v *types.Var) bool {
 	}
 	return !p.writtenGlobals[v]
 }
+
+// tableRow is one row of a function that is a pure finite table.
+type tableRow struct{ key, val *Term }
+
+// pureTables: in-module functions of the shape
+//   func f(k K) (V, bool) { switch k { case c1: return v1, true; ... }; return zero, false }
+// (or with a default clause, or returning V only) over constants: the function
+// form of a package-level map. Keyed by abbreviated full name.
+var pureTables = map[string][]tableRow{}
+
+func (p *Prog) pureTable(fn *types.Func) ([]tableRow, bool) {
+	name := p.abbrev(fn.FullName())
+	if rows, ok := pureTables[name]; ok {
+		return rows, rows != nil
+	}
+	pureTables[name] = nil
+	fs := p.Funcs[fn.Origin()]
+	if fs == nil || fs.Decl.Recv != nil || fs.Decl.Body == nil {
+		return nil, false
+	}
+	sig := fn.Type().(*types.Signature)
+	if sig.Params().Len() != 1 || sig.Results().Len() < 1 || sig.Results().Len() > 2 {
+		return nil, false
+	}
+	if b, ok := sig.Params().At(0).Type().Underlying().(*types.Basic); !ok || b.Info()&(types.IsString|types.IsInteger) == 0 {
+		return nil, false
+	}
+	withOK := sig.Results().Len() == 2
+	if withOK {
+		if b, ok := sig.Results().At(1).Type().Underlying().(*types.Basic); !ok || b.Kind() != types.Bool {
+			return nil, false
+		}
+	}
+	info := fs.Pkg.TypesInfo
+	var param types.Object
+	if names := fs.Decl.Type.Params.List[0].Names; len(names) == 1 {
+		param = info.Defs[names[0]]
+	}
+	if param == nil || len(fs.Decl.Body.List) < 1 || len(fs.Decl.Body.List) > 2 {
+		return nil, false
+	}
+	sw, ok := fs.Decl.Body.List[0].(*ast.SwitchStmt)
+	if !ok || sw.Init != nil || sw.Tag == nil {
+		return nil, false
+	}
+	if id, ok := ast.Unparen(sw.Tag).(*ast.Ident); !ok || info.Uses[id] != param {
+		return nil, false
+	}
+	constRet := func(st ast.Stmt, wantOK bool) (*Term, bool) {
+		rs, ok := st.(*ast.ReturnStmt)
+		if !ok || len(rs.Results) != sig.Results().Len() {
+			return nil, false
+		}
+		tv, has := info.Types[rs.Results[0]]
+		if !has || tv.Value == nil {
+			return nil, false
+		}
+		if withOK {
+			bv, has := info.Types[rs.Results[1]]
+			if !has || bv.Value == nil || (bv.Value.String() == "true") != wantOK {
+				return nil, false
+			}
+		}
+		return constTerm(tv.Value), true
+	}
+	var rows []tableRow
+	hasDefault := false
+	for _, cc := range sw.Body.List {
+		cl := cc.(*ast.CaseClause)
+		if len(cl.Body) != 1 {
+			return nil, false
+		}
+		if cl.List == nil {
+			if _, ok := constRet(cl.Body[0], false); !ok {
+				return nil, false
+			}
+			hasDefault = true
+			continue
+		}
+		v, ok := constRet(cl.Body[0], true)
+		if !ok {
+			return nil, false
+		}
+		for _, ke := range cl.List {
+			tv, has := info.Types[ke]
+			if !has || tv.Value == nil {
+				return nil, false
+			}
+			rows = append(rows, tableRow{constTerm(tv.Value), v})
+		}
+	}
+	if len(fs.Decl.Body.List) == 2 {
+		if _, ok := constRet(fs.Decl.Body.List[1], false); !ok {
+			return nil, false
+		}
+	} else if !hasDefault {
+		return nil, false
+	}
+	if len(rows) == 0 || !withOK {
+		// without the ok result a miss cannot be told from a row: keep such functions inlined
+		return nil, false
+	}
+	pureTables[name] = rows
+	return rows, true
+}
